@@ -82,6 +82,9 @@ FoldPut(r, items, i) == IF i > Len(items) THEN r ELSE FoldPut(SetItemR(r, items[
 IAddR(r, items) == FoldAugAdd(r, items, 1, 1)                 \* self += dict
 ISubR(r, items) == FoldAugAdd(r, items, -1, 1)                \* self -= dict
 IAddScalarR(r, s) == AugAddR(r, << >>, s)                  \* self += number  ->  self[()] += number
+AbsI(v) == IF v < 0 THEN -v ELSE v
+DivisibleBy(r, c) == \A i \in 1..Len(r.ts) : r.ts[i][2] % AbsI(c) = 0
+ExactDivI(v, c) == IF c < 0 THEN -(v \div (-c)) ELSE v \div c
 UpdateR(r, items) == FoldPut(r, items, 1)                  \* self.update(dict)
 \* clear(): dict.clear() and re-run __init__(): caches, mapping, ancilla counter and constraints are reset
 ClearR(r) == Fresh(r.kind)
@@ -165,6 +168,11 @@ DoUpdate(s, j, lit) == ItemsOK(o[s].kind, Operand(j, lit)) /\ Step(s, UpdateR(o[
 DoIMul(s, j, lit) == MulKeysOK(o[s], Operand(j, lit)) /\ Step(s, IMulR(o[s], Operand(j, lit)), <<"imul", s, j, lit>>)
 DoIAddScalar(s, c) == TRUE /\ Step(s, IAddScalarR(o[s], c), <<"iadd_scalar", s, c>>)
 DoIMulScalar(s, c) == TRUE /\ Step(s, IMulScalarR(o[s], c), <<"imul_scalar", s, c>>)
+\* self -= number  ->  self[()] -= number ;  self /= c  ->  self[k] /= c for every stored key (only exact divisions are generated)
+ISubScalarR(r, c) == AugAddR(r, << >>, -c)
+IDivR(r, c) == FoldPut(r, [i \in 1..Len(r.ts) |-> <<KeySeq(r.ts[i][1]), ExactDivI(r.ts[i][2], c)>>], 1)
+DoISubScalar(s, c) == TRUE /\ Step(s, ISubScalarR(o[s], c), <<"isub_scalar", s, c>>)
+DoIDiv(s, c) == DivisibleBy(o[s], c) /\ Step(s, IDivR(o[s], c), <<"idiv", s, c>>)
 DoIPow(s) == MulKeysOK(o[s], ItemsOf(o[s].ts)) /\ Step(s, IPowR(o[s], ItemsOf(o[s].ts), 2), <<"ipow", s, 2>>)
 DoClear(s) == TRUE /\ Step(s, ClearR(o[s]), <<"clear", s>>)
 DoRefresh(s) == TRUE /\ Step(s, RefreshR(o[s]), <<"refresh", s>>)
@@ -211,7 +219,8 @@ Next == \E s \in Slots :
           \/ On("isub") /\ ((\E j \in Slots : DoISub(s, j, << >>)) \/ (\E lit \in LitDicts : DoISub(s, 0, lit)))
           \/ On("update") /\ ((\E j \in Slots : DoUpdate(s, j, << >>)) \/ (\E lit \in LitDicts : DoUpdate(s, 0, lit)))
           \/ On("imul") /\ ((\E j \in Slots : DoIMul(s, j, << >>)) \/ (\E lit \in LitDicts : DoIMul(s, 0, lit)))
-          \/ On("scalar") /\ \E c \in Vals : DoIAddScalar(s, c) \/ DoIMulScalar(s, c)
+          \/ On("scalar") /\ \E c \in Vals : DoIAddScalar(s, c) \/ DoIMulScalar(s, c) \/ DoISubScalar(s, c)
+          \/ On("scalar") /\ \E cc \in {-1, 2} : DoIDiv(s, cc)
           \/ On("ipow") /\ DoIPow(s)
           \/ On("clear") /\ DoClear(s)
           \/ On("refresh") /\ DoRefresh(s)
